@@ -482,11 +482,20 @@ class _resolve_called_lambdas(ast.NodeTransformer):
     def visit_Lambda(self, node: ast.Lambda) -> Any:
         if len(self._arg_map_list) == 0:
             return self.generic_visit(node)
+        new_args = copy.copy(node.args)
+        # Default values belong to the enclosing scope.
+        new_args.defaults = [self.visit(d) for d in node.args.defaults]
+        new_args.kw_defaults = [
+            self.visit(d) if d is not None else None for d in node.args.kw_defaults
+        ]
         local = self._local_names([a.arg for a in node.args.args])
+        # The other kinds of parameters are local names too; they keep their spelling.
+        a = node.args
+        for p in a.posonlyargs + a.kwonlyargs + [x for x in (a.vararg, a.kwarg) if x is not None]:
+            local.setdefault(p.arg, p.arg)
         self._arg_map_list.append(local)
         new_body = self.visit(node.body)
         self._arg_map_list.pop()
-        new_args = copy.copy(node.args)
         new_args.args = [ast.arg(arg=cast(str, local[a.arg])) for a in node.args.args]
         return ast.Lambda(args=new_args, body=new_body)
 
